@@ -23,3 +23,4 @@ def run(ck):
     codec.r9_float_widening_format(ck, P)
     codec.r10_accessor_presence(ck, P)
     codec.r11_yuy2_siblings(ck, P)
+    codec.r12_simd_helpers(ck, P)
